@@ -2,7 +2,8 @@
 which of several equivalent spellings the source uses.  All are classical compiler transformations over the syntax tree --
 nothing is evaluated:
 
-  unroll_static_loops   `for T in <literal tuple/list>` (or a local bound to one just before) -> the body once per element, the
+  unroll_static_loops   `for T in <literal tuple/list>` (or a local, a module-level or a class-level name bound to one; `.items()` /
+                        `.keys()` / `.values()` of a literal dict alike) -> the body once per element, the
                         loop targets replaced by the element's expressions;  a table scan `for T in <literal>: if C: S; break`
                         [`else: E`] -> the if/elif chain over the rows [with `else: E`]
   specialise_dispatch   `if c1: def f.. elif c2: def f.. else: raise` followed by statements using f -> the statements moved into each
@@ -146,6 +147,42 @@ def _literal_seq(node):
     return None
 
 
+class _DictTable(ast.Tuple):
+    """a literal dict kept as the tuple of its (key, value) pairs (so that it can sit where literal sequences sit)"""
+    _fields = ast.Tuple._fields
+
+
+def _literal_dict(node):
+    """`{k1: v1, ..}` with distinct constant keys and no `**` -> _DictTable of the pairs"""
+    if isinstance(node, ast.Dict) and 1 <= len(node.keys) <= 24 and all(isinstance(k, ast.Constant) for k in node.keys) \
+            and len({repr(k.value) for k in node.keys}) == len(node.keys):
+        return _DictTable(elts=[ast.Tuple(elts=[k, v], ctx=ast.Load()) for k, v in zip(node.keys, node.values)], ctx=ast.Load())
+    return None
+
+
+def _literal_table(node):
+    return _literal_seq(node) or _literal_dict(node)
+
+
+def _iterated(it, lits, attrs):
+    """the literal sequence a loop `for T in <it>` visits when <it> is a literal / a local, module-level or class-level table,
+    or `.items()` / `.keys()` / `.values()` of a literal dict of that kind; -> (sequence, name of the local table | None) or None"""
+    view, base = None, it
+    if isinstance(it, ast.Call) and isinstance(it.func, ast.Attribute) and it.func.attr in ("items", "keys", "values") and not it.args and not it.keywords:
+        view, base = it.func.attr, it.func.value
+    tab = _literal_table(base) or (lits.get(base.id) if isinstance(base, ast.Name) else None) or _attr_table(base, attrs)
+    if tab is None:
+        return None
+    local = base.id if isinstance(base, ast.Name) else None
+    if isinstance(tab, _DictTable):
+        if view in (None, "keys"):
+            return ast.Tuple(elts=[p_.elts[0] for p_ in tab.elts], ctx=ast.Load()), local
+        if view == "values":
+            return ast.Tuple(elts=[p_.elts[1] for p_ in tab.elts], ctx=ast.Load()), local
+        return ast.Tuple(elts=list(tab.elts), ctx=ast.Load()), local
+    return (tab, local) if view is None else None
+
+
 _CONST_CTORS = {"re.compile"}
 
 
@@ -165,15 +202,42 @@ def _pure(e, lambdas: bool = False) -> bool:
     return True
 
 
+def _target_names(tg):
+    """names of a (possibly nested) tuple target, or None when it holds anything but names (starred, subscripts, attributes)"""
+    if isinstance(tg, ast.Name):
+        return [tg.id]
+    if isinstance(tg, (ast.Tuple, ast.List)):
+        out = []
+        for e in tg.elts:
+            sub = _target_names(e)
+            if sub is None:
+                return None
+            out += sub
+        return out
+    return None
+
+
+def _destructure(tg, e):
+    """{name: expression} of binding the literal element `e` to the target `tg` (nested tuples matched structurally), or None"""
+    if isinstance(tg, ast.Name):
+        return {tg.id: e}
+    if not isinstance(e, (ast.Tuple, ast.List)) or len(e.elts) != len(tg.elts) or any(isinstance(x, ast.Starred) for x in e.elts):
+        return None
+    m = {}
+    for t, x in zip(tg.elts, e.elts):
+        sub = _destructure(t, x)
+        if sub is None:
+            return None
+        m.update(sub)
+    return m
+
+
 def _unroll_one(loop: ast.For, seq):
     if loop.orelse or _top_level_jumps(loop.body):
         return None
     tg = loop.target
-    if isinstance(tg, ast.Name):
-        names = [tg.id]
-    elif isinstance(tg, (ast.Tuple, ast.List)) and all(isinstance(e, ast.Name) for e in tg.elts):
-        names = [e.id for e in tg.elts]
-    else:
+    names = _target_names(tg)
+    if names is None:
         return None
     # the loop targets must not be RE-BOUND in the body; mutating the object a target names in place (`c.clear()`, `c[k] = v`)
     # is the same operation on the element expression that replaces the target
@@ -181,12 +245,9 @@ def _unroll_one(loop: ast.For, seq):
         return None
     out = []
     for e in seq.elts:
-        if isinstance(tg, ast.Name):
-            m = {tg.id: e}
-        else:
-            if not isinstance(e, (ast.Tuple, ast.List)) or len(e.elts) != len(names) or any(isinstance(x, ast.Starred) for x in e.elts):
-                return None
-            m = dict(zip(names, e.elts))
+        m = _destructure(tg, e)
+        if m is None:
+            return None
         if not all(_pure(v, lambdas=True) for v in m.values()):
             return None
         for st in loop.body:
@@ -206,23 +267,17 @@ def _scan_chain(loop: ast.For, seq):
     if _top_level_jumps(rest):
         return None
     tg = loop.target
-    if isinstance(tg, ast.Name):
-        names = [tg.id]
-    elif isinstance(tg, (ast.Tuple, ast.List)) and all(isinstance(e, ast.Name) for e in tg.elts):
-        names = [e.id for e in tg.elts]
-    else:
+    names = _target_names(tg)
+    if names is None:
         return None
     if set(names) & _stored(loop.body):
         return None
     # the loop variables must not be read after the loop (they would keep the matching row's values)
     chain = list(loop.orelse)
     for e in reversed(seq.elts):
-        if isinstance(tg, ast.Name):
-            m = {tg.id: e}
-        else:
-            if not isinstance(e, (ast.Tuple, ast.List)) or len(e.elts) != len(names) or any(isinstance(x, ast.Starred) for x in e.elts):
-                return None
-            m = dict(zip(names, e.elts))
+        m = _destructure(tg, e)
+        if m is None:
+            return None
         if not all(_pure(v) for v in m.values()):
             return None
         test = _Subst(dict(m)).visit(copy.deepcopy(inner.test))
@@ -246,11 +301,11 @@ def _unroll_block(stmts, lits, attrs=None):
     lits = dict(lits)
     for st in stmts:
         if isinstance(st, ast.For):
-            seq = _literal_seq(st.iter) or (lits.get(st.iter.id) if isinstance(st.iter, ast.Name) else None) or _attr_table(st.iter, attrs)
+            seq, local = _iterated(st.iter, lits, attrs) or (None, None)
             if seq is not None:
                 body_st = _stored(st.body)
                 free = set().union(*[_loaded(e) for e in seq.elts]) if seq.elts else set()
-                if not (free & body_st) and not (isinstance(st.iter, ast.Name) and st.iter.id in body_st):
+                if not (free & body_st) and not (local is not None and local in body_st):
                     after = stmts[stmts.index(st) + 1:]
                     tnames = {n.id for n in ast.walk(st.target) if isinstance(n, ast.Name)}
                     un = _scan_chain(st, seq) if not (tnames & set().union(*[_loaded(a) for a in after], set())) else None
@@ -277,7 +332,8 @@ def _unroll_block(stmts, lits, attrs=None):
             if k in inner_st or (set().union(*[_loaded(e) for e in lits[k].elts]) & inner_st):
                 del lits[k]
         if isinstance(st, ast.Assign) and len(st.targets) == 1 and isinstance(st.targets[0], ast.Name):
-            seq = _literal_seq(st.value)
+            # a local bound to a literal table, or to a class-level / local table under another name (`rows = self._ROWS`)
+            seq = _literal_table(st.value) or _attr_table(st.value, attrs) or (lits.get(st.value.id) if isinstance(st.value, ast.Name) else None)
             if seq is not None and all(_pure(e, lambdas=True) for e in seq.elts) and st.targets[0].id not in set().union(*[_loaded(e) for e in seq.elts]):
                 lits[st.targets[0].id] = seq
         out.append(st)
@@ -293,7 +349,7 @@ def module_tables(mod: ast.Module) -> dict:
             if isinstance(n, ast.Name) and isinstance(n.ctx, (ast.Store, ast.Del)):
                 count[n.id] = count.get(n.id, 0) + 1
         if isinstance(st, ast.Assign) and len(st.targets) == 1 and isinstance(st.targets[0], ast.Name):
-            seq = _literal_seq(st.value)
+            seq = _literal_table(st.value)
             if seq is not None and all(_pure(e) for e in seq.elts):
                 cand[st.targets[0].id] = seq
     if not cand:
@@ -331,7 +387,7 @@ def class_tables(cls: ast.ClassDef, mod: ast.Module | None = None) -> dict:
                 count[n.id] = count.get(n.id, 0) + 1
                 body_names.add(n.id)
         if isinstance(st, ast.Assign) and len(st.targets) == 1 and isinstance(st.targets[0], ast.Name):
-            seq = _literal_seq(st.value)
+            seq = _literal_table(st.value)
             if seq is not None and all(_pure(e) for e in seq.elts):
                 cand[st.targets[0].id] = seq
     cand = {k: v for k, v in cand.items() if count.get(k, 0) == 1 and not (set().union(*[_loaded(e) for e in v.elts]) & body_names)}
@@ -885,7 +941,7 @@ def _drop_dead_tables(func):
         out = []
         for st in stmts:
             if isinstance(st, ast.Assign) and len(st.targets) == 1 and isinstance(st.targets[0], ast.Name) and st.targets[0].id not in read:
-                seq = _literal_seq(st.value)
+                seq = _literal_table(st.value)
                 if seq is not None and all(_pure(e, lambdas=True) for e in seq.elts):
                     continue
             if not isinstance(st, (ast.FunctionDef, ast.ClassDef, ast.AsyncFunctionDef)):
